@@ -565,8 +565,19 @@ def cycseed(repo, res, rule="CYCSEED"):
         it = A.resolve(lp["iter"], envs.get(id(lp)))
         names = P.spine(it)
         details.append("loop over " + A.show(it)[:60])
+        def _whole(t):
+            while t[0] in ("ref", "deref"):
+                t = t[1]
+            if t[0] == "mcall" and t[1] == "chain":
+                # two vertex lists walked one after the other cover the graph when one of them does
+                return _whole(t[2]) or any(_whole(a) for a in t[3] if isinstance(a, tuple))
+            if t[0] == "mcall" and t[1] in ("copied", "cloned", "into_iter") and not t[3]:
+                return _whole(t[2])
+            if any("get_not_depended_on_nonterminals" in n for n in P.spine(t)):
+                return False
+            return t[0] in ("local", "param") or (t[0] == "mcall" and t[1] in ("keys", "iter") and t[2][0] in ("local", "param"))
         through_roots = any("get_not_depended_on_nonterminals" in n for n in names)
-        whole_graph = (not through_roots) and (it[0] in ("local", "param") or (it[0] == "mcall" and it[1] in ("keys", "iter") and it[2][0] in ("local", "param")))
+        whole_graph = _whole(it)
         if whole_graph:
             # nothing but the visited test may skip a vertex
             gs = [g for g in A.guards_of(c, pm, stop=lp) if g[0]["k"] == "If"]
